@@ -211,47 +211,117 @@ func genMeta(t *testing.T, tr *vhlib.Trace, r *vhlib.Rand, n int) {
 	w.doReclaim(w.someHeight(r))
 }
 
-// genBig: one volume with more slots than sqlSectorBatchSize (256) so that expiry, prune and forced
-// removal take several batches (several transactions with a sleep in between).
-func genBig(t *testing.T, tr *vhlib.Trace, r *vhlib.Rand) {
+// sizes around the batch constants: sqlSectorBatchSize (256) for the store's loops
+func batchSize(r *vhlib.Rand, batch int) int {
+	return batch*(1+r.Intn(2)) + r.Intn(3) - 1
+}
+
+// genBatch: volumes larger than sqlSectorBatchSize (256) so that RemoveVolume, the expiry loops and
+// PruneSectors take several transactions, and interruptions between two of them: process death (the
+// database as it is after the k-th batch), a cancelled context, a StoreSector landing in the pause.
+// After every interruption the counters are compared with the recount, then the operation is retried.
+func genBatch(t *testing.T, tr *vhlib.Trace, r *vhlib.Rand, variant int) {
 	w := newWorld(t, tr, "meta", 0)
 	defer w.close()
 	tr.Line("reset mode=meta cache=0", "")
-	slots := 270 + r.Intn(60)
-	id := w.doAddVol(false)
-	w.doAvail(id, true)
-	w.doGrow(id, uint64(slots))
 	w.doAddC1(1, 50, 5)
 	w.doAddC2(1, 50, 5)
-	n := slots - r.Intn(8)
-	for k := 0; k < n; k++ {
-		w.doStore(k, false)
-	}
-	var v1, v2 []int
-	for k := 0; k < n; k += 25 {
-		var l [][2]uint64
-		for j := k; j < k+25 && j < n; j++ {
-			l = append(l, [2]uint64{uint64(j), 10})
+	switch variant {
+	case 0: // forced removal dies between batches; some rows hold sectors
+		n := batchSize(r, 256)
+		if n < 258 {
+			n += 256
 		}
-		w.doTemps(l)
+		id := w.doAddVol(false)
+		w.doAvail(id, true)
+		w.doGrow(id, uint64(n))
+		for k := 0; k < 3+r.Intn(5); k++ {
+			w.doStore(k, false)
+		}
+		w.doRevise1(1, []string{"a0", "a1"})
+		w.doRmVolCut(id, true, 1+r.Intn(2))
+		w.doStore(20, false)
+		w.doRmVol(id, true)
+	case 1: // a StoreSector lands on the still writable volume in the pause of a non-forced removal
+		n := batchSize(r, 256)
+		if n < 258 {
+			n += 256
+		}
+		id := w.doAddVol(false)
+		w.doAvail(id, true)
+		w.doGrow(id, uint64(n))
+		w.doRmVolStore(id, false, 7)
+		w.doRmVol(id, false)
+		w.doStore(8, false)
+		w.doRmVol(id, true)
+	case 2: // non-forced removal of an empty volume dies between batches, then is retried
+		n := batchSize(r, 256)
+		if n < 258 {
+			n += 256
+		}
+		id := w.doAddVol(false)
+		w.doAvail(id, true)
+		w.doGrow(id, uint64(n))
+		w.doRmVolCut(id, false, 1+r.Intn(2))
+		if r.Chance(1, 2) {
+			w.doStore(9, false)
+			w.doRmVol(id, false)
+			w.doRmVol(id, true)
+		} else {
+			w.doRmVol(id, false)
+		}
+	case 3: // migration dies between two sectors, then is retried
+		a := w.doAddVol(false)
+		w.doAvail(a, true)
+		w.doGrow(a, 6)
+		for k := 0; k < 5; k++ {
+			w.doStore(k, false)
+		}
+		b := w.doAddVol(false)
+		w.doAvail(b, true)
+		w.doGrow(b, 6)
+		w.doSetRO(a, true)
+		w.doMigrateCut(a, uint64(r.Intn(3)), 1+r.Intn(3))
+		w.doMigrate(a, 0, nil)
+		w.doRmVol(a, false)
+	default: // expiry and prune loops over more than one batch, interrupted and retried
+		slots := 258 + r.Intn(60)
+		id := w.doAddVol(false)
+		w.doAvail(id, true)
+		w.doGrow(id, uint64(slots))
+		n := slots - r.Intn(8)
+		for k := 0; k < n; k++ {
+			w.doStore(k, false)
+		}
+		for k := 0; k < n; k += 40 {
+			var l [][2]uint64
+			for j := k; j < k+40 && j < n; j++ {
+				l = append(l, [2]uint64{uint64(j), 10})
+			}
+			w.doTemps(l)
+		}
+		var chs []string
+		var v2 []int
+		for k := 0; k < 257+r.Intn(4); k++ {
+			chs = append(chs, fmt.Sprintf("a%d", r.Intn(n)))
+			v2 = append(v2, r.Intn(n))
+		}
+		w.doRevise1(1, chs)
+		w.doRevise2(1, v2)
+		w.doReject(30) // both contracts are unconfirmed: their sectors expire at any height
+		w.doExpireCut("expiret", 10, 1)
+		w.doExpire("expiret", 10)
+		w.doExpireCut("expire1", 5, 1)
+		w.doExpire("expire1", 5)
+		w.doExpireCut("expire2", 5, 1)
+		w.doExpire("expire2", 5)
+		w.doTick()
+		w.doPruneCut(1, vhlib.Pick(r, "crash", "cancel"))
+		w.doPrune()
+		w.doStore(n+1, false)
+		w.doRmVolCut(id, true, 1)
+		w.doRmVol(id, true)
 	}
-	for k := 0; k < 12; k++ {
-		v1 = append(v1, r.Intn(n))
-	}
-	var chs []string
-	for _, k := range v1 {
-		chs = append(chs, fmt.Sprintf("a%d", k))
-	}
-	w.doRevise1(1, chs)
-	for k := 0; k < 12; k++ {
-		v2 = append(v2, r.Intn(n))
-	}
-	w.doRevise2(1, v2)
-	w.doExpire("expiret", 10) // > 256 rows: two batches
-	w.doTick()
-	w.doPrune() // > 256 slots cleared: two batches
-	w.doStore(n+1, false)
-	w.doRmVol(id, true) // > 256 slot rows: two batches, some occupied (lost)
 }
 
 // genData: operation sequence on the real VolumeManager with volume files. The
@@ -711,7 +781,13 @@ func replay(t *testing.T, tr *vhlib.Trace, ops []vhlib.ParsedLine) {
 		case "shrink":
 			w.doShrink(v, op.U64("n"))
 		case "rmvol":
-			w.doRmVol(v, op.Int("force") == 1)
+			if _, ok := op.Args["cut"]; ok && !data {
+				w.doRmVolCut(v, op.Int("force") == 1, op.Int("cut"))
+			} else if _, ok := op.Args["store"]; ok && !data {
+				w.doRmVolStore(v, op.Int("force") == 1, op.Int("store"))
+			} else {
+				w.doRmVol(v, op.Int("force") == 1)
+			}
 		case "addc1":
 			w.doAddC1(op.Int("c"), op.U64("wend"), op.U64("neg"))
 		case "addc2":
@@ -741,17 +817,29 @@ func replay(t *testing.T, tr *vhlib.Trace, ops []vhlib.ParsedLine) {
 			}
 			w.doTemps(l)
 		case "expire1", "expire2", "expiret":
-			w.doExpire(op.Op, op.U64("h"))
+			if _, ok := op.Args["cut"]; ok && !data {
+				w.doExpireCut(op.Op, op.U64("h"), op.Int("cut"))
+			} else {
+				w.doExpire(op.Op, op.U64("h"))
+			}
 		case "tick":
 			w.doTick()
 		case "prune":
-			w.doPrune()
+			if _, ok := op.Args["cut"]; ok && !data {
+				w.doPruneCut(op.Int("cut"), "crash")
+			} else if _, ok := op.Args["cancel"]; ok && !data {
+				w.doPruneCut(op.Int("cancel"), "cancel")
+			} else {
+				w.doPrune()
+			}
 		case "reclaim":
 			w.doReclaim(op.U64("h"))
 		case "rmsector":
 			w.doRmSector(op.Int("r"))
 		case "migrate":
-			if !data {
+			if _, ok := op.Args["cut"]; ok && !data {
+				w.doMigrateCut(v, op.U64("start"), op.Int("cut"))
+			} else if !data {
 				w.doMigrate(v, op.U64("start"), ints(op.List("inj")))
 			}
 		}
@@ -828,8 +916,16 @@ func TestEngine(t *testing.T) {
 	r0 := vhlib.NewRand(cfg.Seed)
 	r0.Uint64()
 	r := vhlib.NewRand(r0.Uint64() ^ (cfg.Seed * 0xD6E8FEB86659FD93))
-	if mode != "data" && (cfg.Tier == "thorough" || cfg.Extra["big"] == "1") {
-		genBig(t, tr, r)
+	if mode != "data" {
+		// batch boundaries: two scenarios per shard in the quick tier, all of them several times in the thorough tier
+		if cfg.Tier == "thorough" || cfg.Extra["big"] == "1" {
+			for k := 0; k < 10; k++ {
+				genBatch(t, tr, r, k%5)
+			}
+		} else {
+			genBatch(t, tr, r, r.Intn(3))
+			genBatch(t, tr, r, 3+r.Intn(2)*r.Intn(2))
+		}
 	}
 	if mode == "data" {
 		genSparse(t, tr, r)
